@@ -30,7 +30,10 @@ Qed.
 (* PQ: no PINGREQ is to be queued at this instant (none due, or one already queued or outstanding).  The drain checks this
    before every step; once it holds it keeps holding, because time does not pass inside the drain, a queued PINGREQ stays
    queued until it is flushed, and every completed flush moves the next ping into the future. *)
-Definition PQ (w : world) : Prop := should_queue_pingreq (w_sess w) (w_now w) = false.
+(* a transport whose remaining script has no slow write (kinds 4, 5): time does not pass inside its writes *)
+Definition slow_ev (e : N * N) : bool := N.eqb (fst e) 4 || N.eqb (fst e) 5.
+Definition Calm (w : world) : Prop := Forall (fun e => slow_ev e = false) (w_script w).
+Definition PQ (w : world) : Prop := should_queue_pingreq (w_sess w) (w_now w) = false /\ Calm w.
 
 Lemma sq_frame : forall s s' now, rt_ping_timeout (s_rt s') = rt_ping_timeout (s_rt s) -> rt_next_ping (s_rt s') = rt_next_ping (s_rt s) ->
   ob_ctl (s_ob s') = ob_ctl (s_ob s) -> should_queue_pingreq s' now = should_queue_pingreq s now.
@@ -39,14 +42,34 @@ Proof. intros s s' now H1 H2 H3. unfold should_queue_pingreq, has_pending_pingre
 Lemma broker_feed_now : forall w a, w_now (broker_feed w a) = w_now w.
 Proof. intros. destruct (broker_feed_fields w a) as [_ [_ [_ [H _]]]]. exact H. Qed.
 
-Lemma io_write_now : forall bs w, w_now (fst (io_write bs w)) = w_now w.
+
+Lemma next_ev_calm : forall w k amt rest, next_ev w = ((k, amt), rest) -> Calm w ->
+  (N.eqb k 4 || N.eqb k 5) = false /\ Forall (fun e => slow_ev e = false) rest.
 Proof.
-  intros bs w. unfold io_write. destruct (N.eqb (lenN bs) 0); [reflexivity|]. destruct (next_ev w) as [[k amt] rest].
-  destruct (N.eqb k 1); [reflexivity|]. destruct (N.eqb k 2); [reflexivity|]. destruct (N.eqb k 3); [reflexivity|].
-  cbv zeta. cbn [fst]. rewrite broker_feed_now. reflexivity.
+  intros w k amt rest E H. unfold next_ev in E. unfold Calm in H. destruct (w_script w) as [|e t] eqn:Es.
+  - inversion E; subst. split; [reflexivity|constructor].
+  - inversion E; subst. inversion H; subst. split; assumption.
+Qed.
+
+Lemma broker_feed_script : forall w a, w_script (broker_feed w a) = w_script w.
+Proof. intros. destruct (broker_feed_fields w a) as [_ [H _]]. exact H. Qed.
+
+Lemma io_write_now : forall bs w, Calm w -> w_now (fst (io_write bs w)) = w_now w /\ Calm (fst (io_write bs w)).
+Proof.
+  intros bs w Hc. unfold io_write. destruct (N.eqb (lenN bs) 0); [split; [reflexivity|exact Hc]|].
+  destruct (next_ev w) as [[k amt] rest] eqn:En. destruct (next_ev_calm _ _ _ _ En Hc) as [Hk Hr].
+  apply orb_false_iff in Hk. destruct Hk as [H4 H5].
+  destruct (N.eqb k 1); [split; [reflexivity|exact Hr]|]. destruct (N.eqb k 2); [split; [reflexivity|exact Hr]|].
+  destruct (N.eqb k 3); [split; [reflexivity|exact Hr]|].
+  rewrite H4, H5. cbv zeta. cbn [fst]. unfold Calm. rewrite broker_feed_now, broker_feed_script. split; [reflexivity|exact Hr].
 Qed.
 Lemma io_flush_now : forall w, w_now (fst (io_flush w)) = w_now w.
 Proof. intros w. unfold io_flush. destruct (next_ev w) as [[k a] rest]. destruct (N.eqb k 1); [reflexivity|]. destruct (N.eqb k 3); reflexivity. Qed.
+Lemma io_flush_calm : forall w, Calm w -> Calm (fst (io_flush w)).
+Proof.
+  intros w Hc. unfold io_flush. destruct (next_ev w) as [[k a] rest] eqn:En. destruct (next_ev_calm _ _ _ _ En Hc) as [_ Hr].
+  destruct (N.eqb k 1); [exact Hr|]. destruct (N.eqb k 3); exact Hr.
+Qed.
 
 Lemma noa_not_due : forall r now,
   match rt_next_ping (note_outbound_activity r now) with Some d => d <=? now | None => false end = false.
@@ -81,45 +104,53 @@ Proof.
   - destruct Hkey as [-> _]. unfold set_retained_written. destruct (update_first _ _ _) as [l b]. reflexivity.
 Qed.
 
+Lemma calm_nil : forall w, w_script w = [] -> Calm w.
+Proof. intros w H. unfold Calm. rewrite H. constructor. Qed.
+
+Lemma upd_sess_calm : forall w s, Calm (upd_sess w s) <-> Calm w.
+Proof. intros. unfold Calm. cbn [w_script upd_sess]. tauto. Qed.
+
 Lemma flush_current_pq : forall p w w' r, PQ w -> flush_current p (w_now w) w = (w', r) -> not_failed r -> PQ w' /\ w_now w' = w_now w.
 Proof.
-  intros p w w' r Hq H Hr. unfold flush_current in H. destruct (w_live w); cbn [negb] in H; [|inversion H; subst; contradiction].
+  intros p w w' r [Hq Hc] H Hr. unfold flush_current in H. destruct (w_live w); cbn [negb] in H; [|inversion H; subst; contradiction].
   destruct (io_flush w) as [w1 fr] eqn:Ef. destruct (io_flush_ghost _ _ _ Ef) as [Hs _].
   pose proof (io_flush_now w) as Nw. rewrite Ef in Nw. cbn [fst] in Nw.
+  pose proof (io_flush_calm w Hc) as Cw. rewrite Ef in Cw. cbn [fst] in Cw.
   destruct fr.
   - destruct (complete_flush (w_sess w1) p (w_now w)) as [s3 f3] eqn:Ec.
     assert (Es3 : s3 = fst (complete_flush (w_sess w) p (w_now w))) by (rewrite <- Hs, Ec; reflexivity).
     assert (Hw' : w' = upd_sess w1 s3) by (destruct f3; now inversion H). subst w'.
-    unfold PQ. cbn [w_sess w_now upd_sess]. rewrite Es3, Nw. split; [apply complete_flush_pq|reflexivity].
+    unfold PQ. cbn [w_sess w_now upd_sess]. rewrite Es3, Nw. split; [split; [apply complete_flush_pq|apply upd_sess_calm; exact Cw]|reflexivity].
   - inversion H; subst. contradiction.
-  - inversion H; subst. unfold PQ. rewrite Hs, Nw. split; [exact Hq|reflexivity].
+  - inversion H; subst. unfold PQ. rewrite Hs, Nw. split; [split; [exact Hq|exact Cw]|reflexivity].
 Qed.
 
 Lemma step_pq : forall st w w' r, WInv (w_sess w) -> next_step (s_ob (w_sess w)) = Some st -> PQ w ->
   perform_outbound_step st (w_now w) w = (w', r) -> not_failed r -> PQ w' /\ w_now w' = w_now w.
 Proof.
-  intros st w w' r I Hn Hq H Hr. unfold perform_outbound_step in H.
+  intros st w w' r I Hn [Hq Hc] H Hr. unfold perform_outbound_step in H.
   destruct (prepare_step (w_sess w) st) as [p bs written len|p| |e] eqn:Ep.
   - destruct (w_live w) eqn:Hl; cbn [negb] in H; [|inversion H; subst; contradiction].
     destruct (io_write (dropN written bs) w) as [w1 r0] eqn:Ew.
     destruct (io_write_ghost _ _ _ _ Ew) as [Hs _].
-    pose proof (io_write_now (dropN written bs) w) as Nw. rewrite Ew in Nw. cbn [fst] in Nw.
+    pose proof (io_write_now (dropN written bs) w Hc) as [Nw Cw]. rewrite Ew in Nw, Cw. cbn [fst] in Nw, Cw.
     destruct r0 as [n| |]; [|inversion H; subst; contradiction|].
     + destruct (N.eqb n 0); [inversion H; subst; contradiction|].
       destruct (set_written (w_sess w1) p (written + n) len) as [s2 found] eqn:Es.
       assert (Es2 : s2 = fst (set_written (w_sess w) p (written + n) len)) by (rewrite <- Hs, Es; reflexivity).
       assert (Q2 : PQ (upd_sess w1 s2)).
-      { unfold PQ. cbn [w_sess w_now upd_sess]. rewrite Es2, Nw. rewrite (set_written_pq _ _ _ _ _ _ _ _ I Hn Ep). exact Hq. }
+      { unfold PQ. cbn [w_sess w_now upd_sess]. rewrite Es2, Nw. rewrite (set_written_pq _ _ _ _ _ _ _ _ I Hn Ep).
+        split; [exact Hq|apply upd_sess_calm; exact Cw]. }
       destruct (negb found); [inversion H; subst; split; [exact Q2|exact Nw]|].
       destruct (written + n <? len); [inversion H; subst; split; [exact Q2|exact Nw]|].
       assert (N2 : w_now (upd_sess w1 s2) = w_now w) by exact Nw.
       rewrite <- N2 in H. destruct (flush_current_pq _ _ _ _ Q2 H Hr) as [Q3 N3]. split; [exact Q3|now rewrite N3].
-    + inversion H; subst. unfold PQ. rewrite Hs, Nw. split; [exact Hq|reflexivity].
-  - now apply flush_current_pq in H.
-  - inversion H; subst. split; [exact Hq|reflexivity].
+    + inversion H; subst. unfold PQ. rewrite Hs, Nw. split; [split; [exact Hq|exact Cw]|reflexivity].
+  - now apply (flush_current_pq p w w' r (conj Hq Hc)) in H.
+  - inversion H; subst. split; [exact (conj Hq Hc)|reflexivity].
   - inversion H; subst. contradiction.
 Qed.
 
 Lemma pq_no_ping : forall w, PQ w -> maybe_queue_pingreq (w_sess w) (w_now w) = (w_sess w, None).
-Proof. intros w H. unfold maybe_queue_pingreq. unfold PQ in H. rewrite H. reflexivity. Qed.
+Proof. intros w [H _]. unfold maybe_queue_pingreq. rewrite H. reflexivity. Qed.
 
